@@ -135,18 +135,20 @@ func (c *context) getParent() *Config {
 }
 
 func (c *context) path(sep string) string {
-	if c.field == "" {
-		return ""
+	if c.parent == nil {
+		// the root, or a value that is not part of a tree yet
+		return c.field
 	}
 
-	if c.parent != nil {
-		p := c.parent.Context()
-		if parent := p.path(sep); parent != "" {
-			return fmt.Sprintf("%v%v%v", parent, sep, c.field)
-		}
+	// The root is the node without a parent, not the first one with an empty
+	// name: a setting can be named "" ({"a": {"": {"x": 1}}}, or the keys "a."
+	// and "b..c" with a path separator), and the path of what is below it does
+	// not start over.
+	p := c.parent.Context()
+	if p.parent == nil && p.field == "" {
+		return c.field
 	}
-
-	return c.field
+	return fmt.Sprintf("%v%v%v", p.path(sep), sep, c.field)
 }
 
 func (c *context) pathOf(field, sep string) string {
